@@ -41,7 +41,9 @@ Always ==
         [c |-> "vec", e |-> [c |-> "struct", f |-> <<L("string"), L("value")>>]],
         [c |-> "struct", f |-> <<L("u8"), [c |-> "vec", e |-> L("string")]>>],
         [c |-> "newtype", e |-> [c |-> "map", k |-> L("u8"), v |-> L("string")]]}
-Shapes == IF LEVEL = 1 THEN D1 \cup Always ELSE D2 \cup Always
+(* std atomics: the type itself, behind a newtype, and as a field after a byte (so that its alignment shows) *)
+Atoms == UNION {{L(a), [c |-> "newtype", e |-> L(a)], [c |-> "struct", f |-> <<L("u8"), L(a)>>]} : a \in AtomLeafs}
+Shapes == (IF LEVEL = 1 THEN D1 \cup Always ELSE D2 \cup Always) \cup Atoms
 VARIABLE s
 Init == s \in Shapes
 Next == UNCHANGED s
